@@ -8,7 +8,7 @@ open ASV ASV.Packing.Spec
 /-- a well-formed collection location is one non-empty part, or `[s, L) + [0, e)` -/
 theorem collOK_cases {L : Int} {l : Loc} (h : collOK L l = true) :
     (∃ p, l = .simple p ∧ 0 ≤ p.lo ∧ p.lo < p.hi ∧ p.hi ≤ L) ∨
-    (∃ s e, l = .compound [⟨s, L, .fwd⟩, ⟨0, e, .fwd⟩] ∧ 0 < e ∧ e < s ∧ s < L) := by
+    (∃ s e, l = .compound [⟨s, L, .fwd⟩, ⟨0, e, .fwd⟩] ∧ 0 < e ∧ e ≤ s ∧ s < L) := by
   cases l with
   | simple p =>
     left
